@@ -18,6 +18,8 @@ package mail
 //@   ensures[C09:nonnil] result != nil
 //@ func mail.Msg.newPart
 //@   ensures[C09:nonnil] result != nil
+//@ func mail.handleEMLMultiPartBase64Encoding (multiPartData, part) (err)
+//@   requires[C09:nonnil] part != nil
 //@ func mail.parseEML
 //@   requires[C09:nonnil] parsedMsg != nil && msg != nil
 //@ func mail.parseEMLHeaders
